@@ -150,6 +150,8 @@ def run_batch(prop_id: str, seed: int, tier: str, indices: list[int], out_path: 
                 rec["minimise_execs"] = spent
             rec["replay"] = write_replay(prop_id, sig, sc2)
             failures[sig] = rec
+    if hasattr(prop, "cleanup"):
+        prop.cleanup()
     out = {"prop": prop_id, "seed": seed, "tier": tier, "hashseed": hashseed, "indices": indices,
            "runs": runs, "failures": list(failures.values()), "harness": harness, "wall_s": time.time() - t0}
     Path(out_path).write_text(json.dumps(out))
